@@ -195,3 +195,41 @@ Proof.
     apply N.le_ge. apply N.div_le_lower_bound; lia. }
   rewrite E. destruct (to_bytes 2 fn); reflexivity.
 Qed.
+
+(* ------------------------------------------------------------------ file numbers index the registration list *)
+(* every entry of the index carries the position, in the list of registered files, of the file whose scan produced it
+   (FastaIndex.add, fastaindex.py:253-264): looking the file up by that number in the same list gives that file back *)
+Lemma scan_loop_fn : forall fuel f fn st es, scan_loop fuel f fn st = Ok es -> forall e, In e es -> e_fn e = fn.
+Proof.
+  induction fuel as [|fuel IH]; intros f fn st es H e He; [discriminate|].
+  cbn [scan_loop] in H. destruct (scan_step f fn st) as [[e0 nxt]|k] eqn:E; [|discriminate].
+  assert (F0: e_fn e0 = fn).
+  { unfold scan_step in E. destruct (first_word _); [|discriminate]. inversion E. reflexivity. }
+  destruct nxt as [nxt|].
+  - destruct (scan_loop fuel f fn nxt) as [es'|k] eqn:E2; [|discriminate]. inversion H; subst es.
+    destruct He as [<-|He]; [exact F0|]. exact (IH _ _ _ _ E2 e He).
+  - inversion H; subst es. destruct He as [<-|[]]. exact F0.
+Qed.
+
+Lemma scan_file_fn f fn es : scan_file f fn = Ok es -> forall e, In e es -> e_fn e = fn.
+Proof.
+  unfold scan_file. destruct f as [|c f]; [discriminate|].
+  destruct (mfind GT (c :: f) 0 None) as [st|].
+  - apply scan_loop_fn.
+  - intros H e He. inversion H; subst es. destruct He.
+Qed.
+
+Theorem scan_files_registered : forall (reg : list str) k es, scan_files reg k = Ok es ->
+  forall e, In e es ->
+  k <= e_fn e /\ exists f es', nth_error reg (e_fn e - k) = Some f /\ scan_file f (e_fn e) = Ok es' /\ In e es'.
+Proof.
+  induction reg as [|f reg IH]; intros k es H e He.
+  - inversion H; subst es. destruct He.
+  - cbn [scan_files] in H. destruct (scan_file f k) as [es1|?] eqn:E1; [|discriminate].
+    destruct (scan_files reg (S k)) as [es2|?] eqn:E2; [|discriminate]. inversion H; subst es.
+    apply in_app_or in He. destruct He as [He|He].
+    + pose proof (scan_file_fn _ _ _ E1 e He) as Fe. rewrite Fe, Nat.sub_diag. split; [lia|].
+      exists f, es1. split; [reflexivity|]. split; assumption.
+    + destruct (IH _ _ E2 e He) as [Hk [f' [es' [N [S' I']]]]]. split; [lia|].
+      exists f', es'. replace (e_fn e - k) with (S (e_fn e - S k)) by lia. split; [exact N|]. split; assumption.
+Qed.
